@@ -151,6 +151,40 @@ TBText(tb)     == FromSC(tb)
 TBEmpty(tb)    == tb = <<>>
 TBReset(tb)    == <<>>
 
+(* ------------------------------ cases ------------------------------
+   A case is one call:  [op, t, ts, ix, w, gs, r, s]  (unused fields carry <<>> / 0 / NilText):
+     "t"         T(s, gs)                      "concat"   Concat(ts)
+     "partition" t.Partition(ix)               "split"    t.SplitByRune(r)    (r a code point)
+     "trim"      t.TrimWcwidth(w)              "style"    StyleText(t, gs)
+     "styleseg"  StyleSegment(t.segs[1], gs)   (result wrapped as a one-segment non-nil text)
+     "tb"        a TextBuilder script: ts[i] is written at step i, after Reset() when ix[i] = 1;
+                 observed: Text() and Empty() of the zero value and after every step
+   Accepted(cc) is the set of results [texts, flags] the specification accepts. *)
+Unspec(cc) == CASE cc.op = "partition" -> PartitionUnspecified(cc.t, cc.ix)
+                [] cc.op = "trim"      -> TrimUnspecified(cc.w)
+                [] OTHER               -> FALSE
+
+\* builder: the texts and Empty() flags observed after each step, starting with the zero value
+RECURSIVE TBRun(_, _, _)
+TBRun(tb, ts, ix) ==
+  IF ts = <<>> THEN [texts |-> <<>>, flags |-> <<>>]
+  ELSE LET tb1 == TBWrite(IF Head(ix) = 1 THEN TBReset(tb) ELSE tb, Head(ts))
+           rest == TBRun(tb1, Tail(ts), Tail(ix))
+       IN [texts |-> <<TBText(tb1)>> \o rest.texts, flags |-> <<TBEmpty(tb1)>> \o rest.flags]
+
+One(texts) == {[texts |-> texts, flags |-> <<>>]}
+Accepted(cc) ==
+  CASE cc.op = "t"         -> One(<<RefT(cc.s, cc.gs)>>)
+    [] cc.op = "concat"    -> One(<<RefConcat(cc.ts)>>)
+    [] cc.op = "partition" -> IF Unspec(cc) THEN {} ELSE One(RefPartition(cc.t, cc.ix))
+    [] cc.op = "split"     -> UNION {One(ps) : ps \in SplitAccepted(cc.t, cc.r)}
+    [] cc.op = "trim"      -> IF Unspec(cc) THEN {} ELSE One(<<RefTrim(cc.t, cc.w)>>)
+    [] cc.op = "style"     -> One(<<RefStyle(cc.t, cc.gs)>>)
+    [] cc.op = "styleseg"  -> One(<<[nil |-> FALSE, segs |-> <<RefStyleSegment(cc.t.segs[1], cc.gs)>>]>>)
+    [] cc.op = "tb"        -> LET r0 == TBRun(TBInit, cc.ts, cc.ix)
+                              IN {[texts |-> <<TBText(TBInit)>> \o r0.texts, flags |-> <<TBEmpty(TBInit)>> \o r0.flags]}
+
+
 (* ------------------------------ laws (checked by TLC in MCStyledCases / MCStyledText) ------ *)
 NormalIsCanonical(t) == Normal(t) <=> t = FromSC(SC(t))
 
